@@ -112,8 +112,8 @@ plan("C06", "fault_enumeration",
           "{no fault, crash before, crash after, error} at EVERY stable-store write the sequence performs (measured by a dry run), restart and continue; quick samples base sequences, thorough 30000 of them; "
           "non-trivial = a vote was granted. SIM: " + (SIM_RULE % "votes were granted in live elections with crashes/errors armed on the vote and term writes"))
 plan("C07", "exploration",
-     [tbl("table", "TestC07", 4, "TABLE"), sim("churn", 40), sim("elections", 10)],
-     [tbl("table", "TestC07", 16, "TABLE"), sim("churn", 900), sim("elections", 300), sim("notify", 200)],
+     [tbl("table", "TestC07", 4, "TABLE"), sim("churn", 30), sim("cfgtrunc", 12), sim("elections", 8)],
+     [tbl("table", "TestC07", 16, "TABLE"), sim("churn", 900), sim("cfgtrunc", 300), sim("elections", 300), sim("notify", 200)],
      None, None,
      {"quick": {"config-append": 40, "cfg-entry-stored": 100}, "thorough": {"config-append": 1000}},
      rule="TABLE: every configuration over 3 (quick) / 4 (thorough) server ids x every command x every target (incl. a new id) x address in {own, another server's, new, empty} x prevIndex in {0, current, stale-, stale+}, "
